@@ -3,7 +3,7 @@
 # For the unmutated source and for hand-made single-token mutations of a COPY of /repo/src placed
 # under $MUT, run the translator into a scratch Gen dir and compile Proofs/TermTie.v against the
 # scratch TermFns.v.  Expected: the baseline and the semantically equivalent mutant compile, every
-# semantic mutant breaks a proof obligation, an untranslatable edit gives TRANSLATE-ERROR (exit 2).
+# semantic mutant breaks a proof obligation, an untranslatable edit gives TRANSLATE-ERROR (exit 3: the unit fails alone; 2: fatal).
 # usage: tools/tie_selftest.sh        (needs the main tree built: coq/Proofs/TermEasy.vo)
 ROOT=$(cd "$(dirname "$0")/.." && pwd)
 COQ=$ROOT/coq
